@@ -14,6 +14,7 @@ LEAN = dict(
         "self_describing_after_reload",
         "self_describing_reopen",
         "reload_reports_only_used",
+        "self_describing_reachable",
     )],
     drivers=["drv_ctr"],
 )
